@@ -421,7 +421,7 @@ func c05count(p *Prog, r *Report, rule string, fn *ssa.Function, fin *Term) {
 		}
 		nS++
 		ok := false
-		for _, a := range rp.Facts {
+		for _, a := range p.expandFacts(s, rp.Facts, 0) {
 			if a.Kind != Truth {
 				continue
 			}
@@ -433,7 +433,7 @@ func c05count(p *Prog, r *Report, rule string, fn *ssa.Function, fin *Term) {
 			if !eq {
 				continue
 			}
-			x, y := s.Of(b.X).String(), s.Of(b.Y).String()
+			x, y := a.S.Of(b.X).String(), a.S.Of(b.Y).String()
 			if (x == num && y == "len(param:0.tokenInputs)") || (y == num && x == "len(param:0.tokenInputs)") {
 				ok = true
 			}
